@@ -215,6 +215,7 @@ impl Engine for C15 {
             alpha_w: if sub == "cgr" { [60, 40, 0, 0, 0, 0, 0] } else { [45, 15, 15, 5, 5, 13, 2] },
             min_len: if sub == "cgr" { 0 } else { 1 },
             dup_pct: 15,
+            tab_desc_pct: 0,
         };
         let mut records = g.gen(rng);
         if (sub == "oligo" || sub == "kcgr") && k >= 6 {
